@@ -216,6 +216,11 @@ def check(prop):
         samples += [json.loads(lines[i]) for i in (3, len(lines) // 2, len(lines) - 1)]
         v.assumptions += ["LatestAnchor combined with a window, and requests the driver may reject, are not judged (counted as open)",
                           "pages are judged against the recorded unpaged sequence of the same call in the same state"]
+        # second part: the same filter functions reached through BQL FILTER clauses (bql/planner/filter + planner),
+        # judged by BQLSemantics.tla (FilteredData) on SELECTs executed by the real engine
+        import fam_bql
+        vlib.build_harness(["bqldrv"])
+        fam_bql.check_bqlfilter(v, tier, vlib.scratch("bqlfilter-"))
     mine = [r for r in total_rejects if r[1] == prop]
     other = [r for r in total_rejects if r[1] != prop]
     if other:
